@@ -137,6 +137,39 @@ def new_set(I_, items, st, ctx, k, node=None):
   return set_insert_all(I_, ref, items, st, ctx, lambda st2: k(st2, ref), node)
 
 
+def is_value_key(I_, key, st):
+  """an object used as a dict key whose class defines __eq__ in Python source (EthAddr, IPAddr ...): located by value"""
+  if not isinstance(key, Ref):
+    return False
+  o = st.obj(key)
+  return o.kind == "obj" and isinstance(I_.class_lookup(o.cls, "__eq__"), types.FunctionType)
+
+
+def dict_locate(I_, ref, key, st, ctx, k_found, k_absent, node=None):
+  """look an object key up by value: identity first, then the class's interpreted __eq__ against every key of the same
+  class (forking where the path condition leaves the answer open).  ASSUMES __hash__ is consistent with __eq__.
+  k_found(st, hashkey) / k_absent(st)"""
+  data = st.obj(ref).data
+  hk = hashkey(key)
+  if hk in data:
+    return k_found(st, hk)
+  cls = st.obj(key).cls
+  cands = [h for h, kv in data.items() if isinstance(kv[0], Ref) and st.obj(kv[0]).kind == "obj" and st.obj(kv[0]).cls is cls]
+  def step(st2, i):
+    if i == len(cands):
+      return k_absent(st2)
+    kk = st2.obj(ref).data[cands[i]][0]
+    def decided(st4, t):
+      if t is True:
+        return k_found(st4, cands[i])
+      if t is False:
+        return step(st4, i + 1)
+      return I_.branch(t, st4, lambda s_: k_found(s_, cands[i]), lambda s_: step(s_, i + 1), "dict-key")
+    return compare(I_, ast.Eq(), key, kk, st2, ctx,
+                   lambda st3, r: I_.truth(r, st3, ctx, decided, node), node)
+  return step(st, 0)
+
+
 def type_of(I_, v, st):
   """the Python type of a value (concrete class)"""
   if isinstance(v, bool) or is_symbool(v):
@@ -1123,6 +1156,8 @@ def contains(I_, container, item, st, ctx, k, node):
     if o.kind in ("dict", "set"):
       if isinstance(item, Union):
         return I_.split(item, st, lambda st2, it: contains(I_, container, it, st2, ctx, k, node))
+      if o.kind == "dict" and is_value_key(I_, item, st):
+        return dict_locate(I_, container, item, st, ctx, lambda s_, hk: k(s_, True), lambda s_: k(s_, False), node)
       if is_sym(item) or isinstance(item, SBytes) or (o.kind == "set" and any(_is_symkey(hk) for hk in o.data)):
         keys = [(kv[0] if o.kind == "dict" else kv) for kv in o.data.values()]
         return any_eq(I_, item, keys, st, ctx, k, node)
@@ -1587,6 +1622,9 @@ def getitem(I_, obj, idx, st, ctx, k, node=None):
     if o.kind == "dict":
       if is_sym(idx) or isinstance(idx, SBytes):
         return dict_sym_lookup(I_, obj, idx, st, ctx, k, node)
+      if is_value_key(I_, idx, st):
+        return dict_locate(I_, obj, idx, st, ctx, lambda s_, hk_: k(s_, s_.obj(obj).data[hk_][1]),
+                           lambda s_: I_.raise_exc(s_, ctx, KeyError, "key", node), node)
       hk = hashkey(idx)
       if hk in o.data:
         I_.note_site("safe.key@" + where, "proved")
@@ -1804,6 +1842,15 @@ def setitem(I_, obj, idx, v, st, ctx, k, node=None):
     if o.kind == "dict":
       if is_sym(idx) or isinstance(idx, SBytes):
         raise Unsupported("symbolic dict key in store")
+      if is_value_key(I_, idx, st):
+        def found(s_, hk_):
+          d_ = s_.obj(obj).data
+          d_[hk_] = (d_[hk_][0], v)          # python keeps the key object already present
+          return k(s_)
+        def absent(s_):
+          s_.obj(obj).data[hashkey(idx)] = (idx, v)
+          return k(s_)
+        return dict_locate(I_, obj, idx, st, ctx, found, absent, node)
       o.data[hashkey(idx)] = (idx, v)
       return k(st)
     if o.kind == "obj":
@@ -1841,6 +1888,11 @@ def delitem(I_, obj, idx, st, ctx, k, node=None):
     if o.kind == "dict":
       if is_sym(idx) or isinstance(idx, SBytes):
         raise Unsupported("symbolic dict key in del")
+      if is_value_key(I_, idx, st):
+        def found(s_, hk_):
+          del s_.obj(obj).data[hk_]
+          return k(s_)
+        return dict_locate(I_, obj, idx, st, ctx, found, lambda s_: I_.raise_exc(s_, ctx, KeyError, "key", node), node)
       hk = hashkey(idx)
       if hk in o.data:
         del o.data[hk]
